@@ -181,7 +181,7 @@ class Engine:
 
     # ---- per path state
     def _reset_path(self, prefix):
-        self.prefix = prefix; self.pos = 0; self.taken = []; self.nvars = 0; self.vars = []
+        self.prefix = prefix; self.pos = 0; self.taken = []; self.nvars = 0; self.vars = []; self.funcs = []
         self.model = None; self.notes = []; self.oracle_hit = False; self.path_info = {}
         self.tokens = {}
 
@@ -197,6 +197,18 @@ class Engine:
         v = z3.Bool(f'{name}#{self.nvars}'); self.nvars += 1
         self.vars.append(v)
         return SymBool(v)
+
+    def fresh_func(self, name, arity, lo=None, hi=None):
+        """uninterpreted Int^arity -> Int function (e.g. unknown image content); returns a Python callable on ints/SymInts"""
+        f = z3.Function(f'{name}#{self.nvars}', *([z3.IntSort()] * (arity + 1))); self.nvars += 1
+        self.funcs.append(f)
+        def call(*args):
+            t = f(*[_zi(a) for a in args])
+            if lo is not None: self._add(t >= lo)
+            if hi is not None: self._add(t <= hi)
+            t = z3.simplify(t)
+            return t.as_long() if z3.is_int_value(t) else SymInt(t)
+        return call
 
     def choice(self, name, n):
         """fork over range(n) without solver involvement; recorded as a model variable for replay"""
@@ -338,6 +350,21 @@ class Engine:
         for v in self.vars:
             val = m.eval(v, model_completion=True)
             out[str(v)] = bool(z3.is_true(val)) if z3.is_bool(v) else val.as_long()
+        for f in self.funcs:
+            ent = []; els = 0
+            try:
+                fi = m[f]
+                if isinstance(fi, z3.FuncInterp):
+                    for k in range(fi.num_entries()):
+                        en = fi.entry(k)
+                        ent.append([en.arg_value(a).as_long() for a in range(en.num_args())] + [en.value().as_long()])
+                    ev = fi.else_value()
+                    els = ev.as_long() if ev is not None and z3.is_int_value(ev) else 0
+                elif fi is not None and z3.is_int_value(fi):
+                    els = fi.as_long()
+            except z3.Z3Exception:
+                pass
+            out[str(f.name())] = {'entries': ent, 'else': els}
         return out
 
     # ---- exploration
@@ -426,6 +453,15 @@ class ConcreteEngine:
 
     def fresh_bool(self, name): return bool(self._get(name))
     def choice(self, name, n): return int(self._get(name))
+    def fresh_func(self, name, arity, lo=None, hi=None):
+        d = self._get(name)
+        table = {tuple(en[:-1]): en[-1] for en in d['entries']}; els = d['else']
+        def call(*args):
+            v = table.get(tuple(int(a) for a in args), els)
+            if lo is not None and v < lo: v = lo
+            if hi is not None and v > hi: v = hi
+            return v
+        return call
     def assume(self, c):
         if not c: raise PathAbort
     def assume_z3(self, c, note=None): pass
